@@ -312,8 +312,15 @@ def match_known(prop, tags):
 # ----------------------------------------------------------------------------- the check
 
 
+def clean(case):
+    """cases may carry private scratch entries (keys starting with '_'); they are never serialised"""
+    if isinstance(case, dict):
+        return {k: v for k, v in case.items() if not str(k).startswith("_")}
+    return case
+
+
 def canonical(case):
-    return json.dumps(case, sort_keys=True, default=str)
+    return json.dumps(clean(case), sort_keys=True, default=str)
 
 
 def write_replay(prop, payload):
@@ -456,7 +463,7 @@ def _main(mod, prop, args, seed, t0):
     for r in results:
         c = r["case"]
         streams[c.get("stream", "?")] = streams.get(c.get("stream", "?"), 0) + 1
-        key = canonical({k: v for k, v in c.items() if k not in ("stream", "subseed")})
+        key = canonical({k: v for k, v in clean(c).items() if k not in ("stream", "subseed")})
         if key in seen:
             continue
         seen.add(key)
@@ -488,7 +495,7 @@ def _main(mod, prop, args, seed, t0):
         payload = {
             "property": prop,
             "kind": kind,
-            "case": r["case"],
+            "case": clean(r["case"]),
             "ops": r["ops"],
             "impl": r["impl"],
             "model": r["model"],
@@ -556,7 +563,7 @@ def _main(mod, prop, args, seed, t0):
     samples = []
     step = max(1, len(results) // 6)
     for r in results[::step][:6]:
-        samples.append({"case": r["case"], "ops": r["ops"][:3], "impl": [a[:200] for a in r["impl"][:3]], "model": [a[:200] for a in r["model"][:3]]})
+        samples.append({"case": clean(r["case"]), "ops": [o[:300] for o in r["ops"][:3]], "impl": [a[:200] for a in r["impl"][:3]], "model": [a[:200] for a in r["model"][:3]]})
     samples.append({"obligations": mod.THEOREMS})
     cov = {
         "obligations": obligations,
